@@ -158,4 +158,140 @@ theorem stepRV_sat (oc : Bool) (b : Buf) (lens : List Nat) (h : b.WInv) :
 example : Sat_RV ⟨[97, 98, 99, 0], 0, 3⟩ [1, 2] [[98], [97, 99]] { cls := .ok, nums := [3] } ⟨[97, 98, 99, 0], 0, 0, [], true⟩ = false := by
   decide
 
+/-! ### `write_all` / `write_fmt` / `read_exact` -/
+
+/-- what a run of the default `write_fmt` does, piece by piece -/
+theorem wf_run (oc : Bool) :
+    ∀ (ps : List (List Byte)) (b : Buf), b.WInv →
+      (stepWF oc b ps).1.WInv ∧ (stepWF oc b ps).1.mem.length = b.mem.length ∧ (stepWF oc b ps).1.ri = b.ri ∧
+      (((stepWF oc b ps).2.cls = .ok ∧ (stepWF oc b ps).1.readable = b.readable ++ ps.flatten ∧
+          (stepWF oc b ps).1.wi = b.wi + ps.flatten.length) ∨
+       ((stepWF oc b ps).2.cls = .err EK_InvalidData ∧ b.mem.length - b.wi < ps.flatten.length ∧
+          ∃ j, j ≤ ps.length ∧ (stepWF oc b ps).1.readable = b.readable ++ (ps.take j).flatten ∧
+            (stepWF oc b ps).1.wi = b.wi + (ps.take j).flatten.length)) := by
+  intro ps
+  induction ps with
+  | nil => intro b h; exact ⟨h, rfl, rfl, Or.inl ⟨rfl, by simp [stepWF], by simp [stepWF]⟩⟩
+  | cons p ps ih =>
+    intro b h
+    by_cases hp : p = []
+    · subst hp
+      have e : stepWF oc b ([] :: ps) = stepWF oc b ps := by simp [stepWF, stepWA]
+      rw [e]
+      obtain ⟨a1, a2, a3, a4⟩ := ih b h
+      refine ⟨a1, a2, a3, ?_⟩
+      rcases a4 with ⟨c1, c2, c3⟩ | ⟨c1, c2, j, c3, c4, c5⟩
+      · exact Or.inl ⟨c1, by simpa using c2, by simpa using c3⟩
+      · exact Or.inr ⟨c1, by simpa using c2, j + 1, by simp; omega, by simpa using c4, by simpa using c5⟩
+    · by_cases hfit : p.length ≤ b.mem.length - b.wi
+      · have hstep : stepWA oc b p = ((b.put p).commit p.length, { cls := .ok }) := by
+          simp [stepWA, hp, step_ioWrite oc b p h, hfit]
+        have e : stepWF oc b (p :: ps) = stepWF oc ((b.put p).commit p.length) ps := by
+          simp [stepWF, hstep]
+        rw [e]
+        have hw := put_commit_WInv b p h hfit
+        have hr := put_commit_readable b p h
+        have hml : ((b.put p).commit p.length).mem.length = b.mem.length := by
+          simpa [Buf.commit] using put_mem_length b p h hfit
+        have hwi : ((b.put p).commit p.length).wi = b.wi + p.length := by simp [Buf.commit, Buf.put]
+        have hri : ((b.put p).commit p.length).ri = b.ri := by simp [Buf.commit, Buf.put]
+        obtain ⟨a1, a2, a3, a4⟩ := ih _ hw
+        refine ⟨a1, by rw [a2, hml], by rw [a3, hri], ?_⟩
+        rcases a4 with ⟨c1, c2, c3⟩ | ⟨c1, c2, j, c3, c4, c5⟩
+        · refine Or.inl ⟨c1, ?_, ?_⟩
+          · rw [c2, hr]; simp
+          · rw [c3, hwi]; simp; omega
+        · refine Or.inr ⟨c1, ?_, j + 1, by simp; omega, ?_, ?_⟩
+          · rw [hml, hwi] at c2; simp only [List.flatten_cons, List.length_append]; omega
+          · rw [c4, hr]; simp
+          · rw [c5, hwi]; simp; omega
+      · have hstep : stepWA oc b p = (b, { cls := .err EK_InvalidData }) := by
+          simp [stepWA, hp, step_ioWrite oc b p h, hfit]
+        have e : stepWF oc b (p :: ps) = (b, { cls := .err EK_InvalidData }) := by
+          simp [stepWF, hstep]
+        rw [e]
+        refine ⟨h, rfl, rfl, Or.inr ⟨rfl, ?_, 0, by simp, by simp, by simp⟩⟩
+        simp only [List.flatten_cons, List.length_append]; omega
+
+/-- the default `write_fmt` (and `write_all`: one piece) satisfies the predicate in every state, for every piece list -/
+theorem stepWF_sat (oc : Bool) (b : Buf) (pieces : List (List Byte)) (h : b.WInv) :
+    Sat_WF b pieces (stepWF oc b pieces).2 (stepWF oc b pieces).1.obs = true := by
+  obtain ⟨a1, a2, a3, a4⟩ := wf_run oc pieces b h
+  have hl := Buf.readable_length _ a1
+  obtain ⟨w1, w2, _⟩ := a1
+  have hv : validObs b (stepWF oc b pieces).1.obs = true := by
+    simp only [validObs, Buf.obs, a2, hl, decide_true, Bool.true_and, Bool.and_true, beq_self_eq_true, w1]
+    rw [a2] at w2
+    simp [w2]
+  simp only [Sat_WF, hv, Bool.true_and]
+  rcases a4 with ⟨c1, c2, c3⟩ | ⟨c1, c2, j, c3, c4, c5⟩
+  · rw [c1]
+    simp only [Buf.obs, Obs.free, Buf.free, c2, a2, c3, beq_self_eq_true, Bool.true_and]
+    have : b.wi + pieces.flatten.length ≤ b.mem.length := by rw [← c3, ← a2]; exact w2
+    simp only [beq_iff_eq]; omega
+  · rw [c1]
+    simp only [beq_self_eq_true, Bool.true_and, Buf.free, c2, decide_true]
+    simp only [List.any_eq_true, List.mem_range, Bool.and_eq_true, beq_iff_eq]
+    refine ⟨j, by omega, by simp [Buf.obs, c4], ?_⟩
+    have : b.wi + (pieces.take j).flatten.length ≤ b.mem.length := by rw [← c5, ← a2]; exact w2
+    simp only [Buf.obs, Obs.free, a2, c5]; omega
+
+theorem validObs_of_WInv (b post : Buf) (hw : post.WInv) (hm : post.mem.length = b.mem.length) :
+    validObs b post.obs = true := by
+  have hl := Buf.readable_length post hw
+  obtain ⟨w1, w2, _⟩ := hw
+  rw [hm] at w2
+  simp [validObs, Buf.obs, hm, hl, w1, w2]
+
+/-- the default `read_exact` satisfies its predicate in every state, for every destination length -/
+theorem stepRE_sat (oc : Bool) (b : Buf) (d : Nat) (h : b.WInv) :
+    Sat_RE b d (stepRE oc b d).2.bytes (stepRE oc b d).2 (stepRE oc b d).1.obs = true := by
+  have hl := Buf.readable_length b h
+  unfold stepRE
+  rw [step_ioRead oc b d h]
+  by_cases hm : min d (b.wi - b.ri) = 0
+  · simp only [hm, if_true]
+    have hv := validObs_of_WInv b b h rfl
+    by_cases hd : d ≤ b.len
+    · have hd0 : d = 0 := by simp only [Buf.len] at hd; omega
+      subst hd0
+      simp [Sat_RE, hv, obs_rd, obs_ri, obs_wi, obs_mem, Obs.free, Buf.free]
+    · have hlen0 : b.wi - b.ri = 0 := by simp only [Buf.len] at hd; omega
+      have hrd : b.readable = [] := List.eq_nil_of_length_eq_zero (by rw [hl]; exact hlen0)
+      have hlt : b.len < d := by omega
+      simp only [hd, if_false]
+      simp [Sat_RE, hv, obs_rd, obs_ri, obs_wi, obs_mem, Obs.free, Buf.free, hrd, hlt]
+      exact Or.inl (by simpa [Buf.len] using hlen0)
+  · simp only [hm, if_false]
+    have hle : min d (b.wi - b.ri) ≤ b.wi - b.ri := Nat.min_le_right _ _
+    have hw := consume_WInv b _ h hle
+    have hr := consume_readable b _ h hle
+    have hcm := consume_mem b (min d (b.wi - b.ri))
+    have hfree := consume_free_ge b (min d (b.wi - b.ri)) h
+    have hv := validObs_of_WInv b _ hw (by rw [hcm])
+    rw [hcm] at hfree
+    by_cases hd : d ≤ b.len
+    · have hmin : min d (b.wi - b.ri) = d := by simp only [Buf.len] at hd; omega
+      have hdl : d ≤ b.readable.length := by rw [hl]; simpa [Buf.len] using hd
+      simp only [hd, if_true]
+      rw [hmin] at hr hfree hv hcm ⊢
+      simp only [Sat_RE, hv, obs_rd, obs_ri, obs_wi, obs_mem, Obs.free, Buf.free, hcm, hr, Nat.sub_self, List.replicate_zero, List.append_nil,
+        List.length_take, Nat.min_eq_left hdl, hd, hfree, decide_true, Bool.true_and, Bool.and_true, beq_self_eq_true]
+    · have hmin : min d (b.wi - b.ri) = b.wi - b.ri := by simp only [Buf.len] at hd; omega
+      have hlt : b.len < d := by omega
+      have hdrop : b.readable.drop (b.wi - b.ri) = [] := List.drop_eq_nil_of_le (by rw [hl]; exact Nat.le_refl _)
+      have htk : b.readable.take (b.wi - b.ri) = b.readable := List.take_of_length_le (by rw [hl]; exact Nat.le_refl _)
+      simp only [hd, if_false]
+      rw [hmin] at hr hfree hv hcm ⊢
+      rw [hdrop] at hr
+      have hdlen : (b.readable.take (b.wi - b.ri) ++ List.replicate (d - (b.wi - b.ri)) DEST_FILL).length = d := by
+        simp only [List.length_append, List.length_take, List.length_replicate, hl, Nat.min_self]
+        simp only [Buf.len] at hlt; omega
+      simp only [Sat_RE, hv, obs_rd, obs_ri, obs_wi, obs_mem, Obs.free, Buf.free, hcm, hr, hdlen, hlt, hfree, decide_true, Bool.true_and,
+        Bool.and_true, beq_self_eq_true, List.length_nil, Nat.sub_zero, Buf.len, htk]
+      have hwl := h.2.1
+      simp only [Buf.len] at hlt
+      simp [List.take_append_of_le_length, hl, hlt]
+      omega
+
 end FBV.C01
